@@ -3,6 +3,6 @@ namespace Kestrel
 open Generated
 
 /-- encrypt.rs::key_encrypt — payload key drawn, the Noise message computed (may refuse) BEFORE anything is written; then prologue, message, flush, file key  (properties: C01 C06 C13 C05) -/
-theorem gen_flow_encrypt_rs_key_encrypt : flow_encrypt_rs_key_encrypt = ["random", "noise_write", "write_all", "write_all", "flush", "hkdf"] := rfl
+theorem gen_flow_encrypt_rs_key_encrypt : flow_encrypt_rs_key_encrypt = ["random", "noise_write", "write_all", "write_all", "flush", "hkdf", "call:encrypt_chunks"] := rfl
 
 end Kestrel
